@@ -40,6 +40,9 @@ def gen_cases(tier, seed):
                 cases.append({"kind": "zoo", "cfg": cfg, "policy": pol, "seed": env.subseed(seed, fam, ci, pol),
                               "world": "f64", "batch": 5 if tier == "quick" else 8,
                               "cost": 6 if "umnn" in fam else (3 if len(cfg.get("shape", [1])) == 3 else 1)})
+                if cfg.get("cache") and pol != "zero":
+                    # cache on: the forward log-det must not depend on which direction filled the cache first
+                    cases.append(dict(cases[-1], pre="inverse_first"))
     # finding probe (known open finding): UMNN coupling with an unconditional transform
     for i, shape in enumerate(([2], [3])):
         cfg = {"fam": "coupling_umnn", "ctx": 0, "net": "resnet", "hidden": 8, "blocks": 1, "shape": shape,
@@ -65,7 +68,8 @@ def gen_cases(tier, seed):
 
 def _cell(r, cfg, me, pol, special):
     r.cell(cfg["fam"], pol, "img" if len(me["shape"]) == 3 else "2d", "ctx" if me["ctx_shape"] else "noctx",
-           "sp" if special else "int", cfg.get("tails", "-"), "uncond" if cfg.get("uncond") else "-")
+           "sp" if special else "int", cfg.get("tails", "-"), "uncond" if cfg.get("uncond") else "-",
+           "cache" if cfg.get("cache") else "-")
 
 
 def run_case(case):
@@ -85,6 +89,12 @@ def run_case(case):
     x = zoo.sample_inputs(me, B, case["seed"] + 1, structured="one")
     ctx = zoo.sample_context(me, B, case["seed"] + 2)
     sp = set(me["special"])
+    if case.get("pre") == "inverse_first":
+        try:
+            with torch.no_grad():
+                model.inverse(torch.randn_like(x), ctx)
+        except Exception:
+            pass
     try:
         with torch.no_grad():
             out, lad = model(x, ctx)
